@@ -105,7 +105,20 @@ def check(rep, an, tier):
         F.must_constraint(rep, res, entry, "lbp", "lower opacity bound", pprobs)
         F.must_constraint(rep, res, entry, "ubp", "upper opacity bound", pprobs)
         # equal-L1 equality: present iff requested; its guards must not depend on the mask
-        eq = [ev for ev in res.events("cvx_constraint") if "diff" in R.atoms_in(ev.d["val"]) and ev.d["val"].tag("op") == "Eq"]
+        def _is_total_equality(c):
+            """layer totals set equal: `cp.diff(cp.sum(X, axis=1)) == 0`, or an equality whose two sides are both (parts of) the layer sums
+            of the intensity variable (`t[1:] == t[:-1]`, `t == cp.sum(t) / n`)"""
+            if c.tag("op") != "Eq":
+                return False
+            if "diff" in R.atoms_in(c):
+                return True
+            l_, r_ = c.tag("lhs"), c.tag("rhs")
+            if l_ is None or r_ is None:
+                return False
+            def sums_x(v):
+                return "sum" in R.atoms_in(v) and bool(set(v.flat().refs) & xvars)
+            return sums_x(l_) and sums_x(r_)
+        eq = [ev for ev in res.events("cvx_constraint") if _is_total_equality(ev.d["val"])]
         if cfg["equal"]:
             rep.check("R-FLOW", "equal-L1 request → equality of the layer sums", bool(eq), where=res.fn.loc(),
                       construct="equal_l1norm_constraint → cp.diff(cp.sum(X, axis=1)) == 0", entry=entry, config=res.config,
